@@ -16,7 +16,7 @@ Fixpoint arena_tree (fuel : nat) (a : list anode) (i : nat) : ltree :=
       | ASum gs => LT 0 (ascope n) (length (arows n))
                       (map (fun g => Q2Qc (Z.of_nat (length g) # Pos.of_nat (length (arows n)))) gs)
                       (map (arena_tree f a) (akids n))
-      | AProd => LT 1 (ascope n) (length (arows n)) [] (map (arena_tree f a) (akids n))
+      | AProd _ => LT 1 (ascope n) (length (arows n)) [] (map (arena_tree f a) (akids n))
       | ALeaf => LT 2 (ascope n) (length (arows n)) [] []
       end
   end.
